@@ -44,6 +44,13 @@ pub fn properties_of(v: &Violation) -> Vec<&'static str> {
             }
         }
         "I10" | "H4" => vec!["C12"],
+        "I11" => {
+            if v.key == "rustc:E0072" {
+                vec!["C01", "C07"]
+            } else {
+                vec!["C01"]
+            }
+        }
         "H1" | "H2" => vec!["C16"],
         "H3" => vec!["C16", "C06"],
         _ => vec![],
